@@ -405,6 +405,8 @@ class Fn:
         elif isinstance(x, list) and x and x[0] in ("c", "m", "k"):
             if x[0] == "k":
                 ex = x[3]
+                if x[1] == "bool" and "int" in ex:
+                    return "const:true" if ex["int"] == "1" else "const:false"
                 if "int" in ex:
                     return ex["int"]
                 if ex.get("static_name"):
